@@ -1,14 +1,14 @@
 #!/bin/sh
 # tools/seed_eval.sh <PID> <k> [check ids...]: confirm a seeded change (suite green, demo 0/1) and run checks against it
 pid=$1; k=$2; shift 2; checks=${*:-$pid}
-wt=/tmp/seed-$pid; d=$wt/out/$k
+wt=/tmp/${SEEDPFX:-seed}-$pid; d=$wt/out/$k; tagk=${SEEDTAG:-}$k
 [ -f $d/patch.diff ] || { echo "no patch $d"; exit 2; }
 git -C $wt checkout -q -- . ; git -C $wt clean -fdq -e out 2>/dev/null
 u=$(cd $wt && /venv/bin/python $d/demo.py $wt >/dev/null 2>&1; echo $?)
 git -C $wt apply $d/patch.diff || { echo "patch does not apply"; exit 2; }
 suite=$(cd $wt && /venv/bin/python -m pytest -q -p no:cacheprovider --timeout=900 --continue-on-collection-errors 2>&1 | tail -1)
 p=$(cd $wt && /venv/bin/python $d/demo.py $wt >/dev/null 2>&1; echo $?)
-echo "$pid/$k demo unpatched=$u patched=$p suite: $suite"
+echo "$pid/$tagk demo unpatched=$u patched=$p suite: $suite"
 res=""
 for c in $checks; do
   out=$(VERIF_REPO=$wt /verif/check $c 2>&1); rc=$?
@@ -17,8 +17,8 @@ for c in $checks; do
   res="$res $c:$rc"
 done
 git -C $wt checkout -q -- .
-mkdir -p /verif/seeded/$pid-$k && cp $d/patch.diff $d/demo.py /verif/seeded/$pid-$k/
-python3 - "$d/meta.json" "/verif/seeded/$pid-$k/meta.json" "$u" "$p" "$suite" "$res" <<'PY'
+mkdir -p /verif/seeded/$pid-$tagk && cp $d/patch.diff $d/demo.py /verif/seeded/$pid-$tagk/
+python3 - "$d/meta.json" "/verif/seeded/$pid-$tagk/meta.json" "$u" "$p" "$suite" "$res" <<'PY'
 import json,sys
 m=json.load(open(sys.argv[1]))
 m.update({'confirmed_demo_unpatched_exit':int(sys.argv[3]),'confirmed_demo_patched_exit':int(sys.argv[4]),'confirmed_suite':sys.argv[5],
